@@ -110,4 +110,27 @@ pub fn register(l: &mut Vec<Obl>) {
             r.goal("equals_reference", x.difference(y).close(ciede2000(v[0], v[1], v[2], v[3], v[4], v[5]), 1e-6));
             r
         });
+    // hue / chroma configurations with symbolic lightness: the chromatic part (a', C', h', the wrap-around case split of
+    // delta h' and mean h', T, R_T) is evaluated on constants by the real code, the lightness part stays symbolic
+    let hues = [15.0f64, 75.0, 135.0, 195.0, 255.0, 315.0];
+    for (i, h1) in hues.iter().enumerate() {
+        for (j, h2) in hues.iter().enumerate() {
+            let (h1, h2) = (*h1, *h2 + 7.0);
+            let (c1, c2) = (30.0f64, 45.0f64);
+            let l2 = [5.0f64, 20.0, 35.0, 50.0, 65.0, 80.0, 95.0, 100.0][(i + 3 * j) % 8];
+            let (a1, b1, a2, b2) = (c1 * h1.to_radians().cos(), c1 * h1.to_radians().sin(), c2 * h2.to_radians().cos(), c2 * h2.to_radians().sin());
+            obl!(l; format!("c09_ciede2000_grid_h{}_h{}", i, j), "C09", Tier::Quick,
+                format!("CIEDE2000 for the chroma/hue configuration C1 = 30 at {} deg, C2 = 45 at {} deg, L2 = {} and EVERY lightness L1: equals the Sharma-Wu-Dalal reference formula (1e-6) and is symmetric (1e-6); the 36 configurations include hue pairs straddling 0/360 in both orders and pairs more than 180 deg apart", h1, h2, l2),
+                ["color_difference::get_ciede2000_difference", "<Lab as Ciede2000>::difference", "LabColorDiff::from"],
+                [var("l1", 0.0, 100.0)];
+                |v| {
+                    let mut r = Res::<B>::new();
+                    let (x, y) = (Lab::<wp::D65, T>::new(v[0], T::k(a1), T::k(b1)), Lab::<wp::D65, T>::new(T::k(l2), T::k(a2), T::k(b2)));
+                    let d = x.difference(y);
+                    r.goal("equals_reference", d.close(ciede2000(v[0], T::k(a1), T::k(b1), T::k(l2), T::k(a2), T::k(b2)), 1e-6));
+                    r.goal("symmetric", d.close(y.difference(x), 1e-6));
+                    r
+                });
+        }
+    }
 }
